@@ -545,8 +545,19 @@ func (p c05) Run(w *mon.Worker, idx int) mon.Result {
 			plainStream = false
 		}
 	}
+	noMarkers := plainStream && !strings.Contains("\n"+st.Text, "\n---") && !strings.Contains("\n"+st.Text, "\n...") && !strings.Contains("\n"+st.Text, "\n%")
 	switch {
 	case !plainStream:
+	case idx%10 == 2 && noMarkers && !st.ZeroDocs:
+		// the whole (single, marker-free) document shifted four columns to the right: the same document
+		var sb strings.Builder
+		for _, ln := range strings.SplitAfter(st.Text, "\n") {
+			if strings.TrimSpace(ln) != "" {
+				sb.WriteString("    ")
+			}
+			sb.WriteString(ln)
+		}
+		st.Text, mut = sb.String(), "indented_root"
 	case idx%10 == 4 && !st.ZeroDocs && strings.HasSuffix(st.Text, "\n") && !strings.HasSuffix(st.Text, "\n\n"):
 		st.Text, mut = st.Text[:len(st.Text)-1], "no_final_newline"
 	case idx%10 == 9 && !st.ZeroDocs && !strings.Contains(st.Text, "#") && !strings.HasPrefix(st.Text, "-") && !strings.HasPrefix(st.Text, "%") && !strings.Contains(st.Text, "\r"):
